@@ -45,6 +45,18 @@ static bool escapes(const Value* V, std::set<const Value*>& seen) {
 
 void FnEmitter::computePrivate() {
   for (const BasicBlock& BB : F)
+    for (const Instruction& I : BB) {
+      const Value* P = nullptr;
+      if (auto* S = dyn_cast<StoreInst>(&I)) P = S->getPointerOperand();
+      else if (isa<AtomicRMWInst>(I) || isa<AtomicCmpXchgInst>(I)) P = I.getOperand(0);
+      if (P) {
+        const Value* B = P->stripPointerCasts();
+        if (auto* G = dyn_cast<GEPOperator>(B)) B = G->getPointerOperand()->stripPointerCasts();
+        if (auto* GV = dyn_cast<GlobalVariable>(B))
+          if (GV->isThreadLocal()) tlsStored.insert(GV);
+      }
+    }
+  for (const BasicBlock& BB : F)
     for (const Instruction& I : BB)
       if (auto* A = dyn_cast<AllocaInst>(&I)) {
         std::set<const Value*> seen;
@@ -107,6 +119,7 @@ static AccessDesc describeAccess(const Instruction& I, const Value* P, Type* VT,
   d.tbaa = tbaaAccessType(I);
   if (d.tbaa && isCharTbaa(d.tbaa)) d.tbaa = nullptr;
   d.size = VT->isSized() ? DL.getTypeStoreSize(VT) : 0;
+  d.isPtr = VT->isPointerTy();
   const Value* B = P->stripPointerCasts();
   if (auto* G = dyn_cast<GEPOperator>(B)) {
     APInt o(64, 0);
@@ -118,9 +131,13 @@ static AccessDesc describeAccess(const Instruction& I, const Value* P, Type* VT,
   return d;
 }
 static bool provablyDisjoint(const AccessDesc& a, const AccessDesc& b) {
+  // type safety: a scalar object is accessed with one scalar size, and either as a pointer or as a non-pointer
+  if (a.size && b.size && a.size != b.size) return true;
+  if (a.size && b.size && a.isPtr != b.isPtr) return true;
   // an access with no type/field information (e.g. an atomic store through a loaded pointer) is assumed to touch
   // only scalars of its own size
-  if ((!a.tbaa && !a.st) || (!b.tbaa && !b.st)) return a.size && b.size && a.size != b.size;
+  // (type safety: a scalar object is accessed either as a pointer or as an integer, never both)
+  if ((!a.tbaa && !a.st) || (!b.tbaa && !b.st)) return (a.size && b.size && a.size != b.size) || a.isPtr != b.isPtr;
   if (a.tbaa && b.tbaa && a.tbaa != b.tbaa) return true;
   if (a.st && b.st && a.st == b.st && a.size && b.size)
     if (a.off + (int64_t)a.size <= b.off || b.off + (int64_t)b.size <= a.off) return true;
@@ -163,24 +180,96 @@ void Translator::computeStoredTypes(const Function* only) {
         }
         AccessDesc d = describeAccess(I, P, VT, DL);
         if (!d.tbaa && !d.st && !d.size) storedUnknown = true;
+        if (getenv("IR2C_DEBUG")) { errs() << F.getName() << " write tbaa=" << (d.tbaa ? cast<MDString>(d.tbaa->getOperand(0))->getString() : "-") << " st=" << (d.st ? "y" : "-") << " off=" << d.off << " size=" << d.size << " : "; I.print(errs()); errs() << "\n"; }
         writes.push_back(d);
       }
   }
+}
+
+bool FnEmitter::isReadOnlyLoad(const LoadInst& L) {
+  if (L.isAtomic() || L.isVolatile()) return false;
+  if (!T.storedTypesKnown || T.storedUnknown) return false;
+  AccessDesc d = describeAccess(L, L.getPointerOperand(), L.getType(), T.DL);
+  for (auto& w : T.writes)
+    if (!provablyDisjoint(d, w)) return false;
+  return true;
+}
+
+// Rematerialisation (step mode): the address of a memory access is recomputed right at the access from values that
+// cannot have changed (constants, pure arithmetic, loads of thread-local variables this body never stores to, loads
+// of data no thread body may write).  The static SSA variables hold the same values, but they were assigned under
+// the guard of an earlier step, so CBMC would see a symbolic pointer and byte-update whole objects; recomputed from
+// constants the address folds to a constant.
+bool FnEmitter::rematChain(const Value* V, std::vector<const Instruction*>& out, std::set<const Value*>& seen, unsigned depth) {
+  auto* I = dyn_cast<Instruction>(V);
+  if (!I) return true; // constants and arguments (the thread id) are stable
+  if (seen.count(I)) return true;
+  if (depth > 24) return false;
+  bool ok = false;
+  switch (I->getOpcode()) {
+  case Instruction::GetElementPtr: case Instruction::BitCast: case Instruction::ZExt: case Instruction::SExt:
+  case Instruction::Trunc: case Instruction::PtrToInt: case Instruction::IntToPtr: case Instruction::Add:
+  case Instruction::Sub: case Instruction::Mul: case Instruction::Shl: case Instruction::And: case Instruction::Or:
+  case Instruction::LShr: case Instruction::URem: case Instruction::UDiv:
+    ok = true;
+    break;
+  case Instruction::Load: {
+    auto* L = cast<LoadInst>(I);
+    if (L->isAtomic() || L->isVolatile()) break;
+    const Value* B = L->getPointerOperand()->stripPointerCasts();
+    if (auto* G = dyn_cast<GEPOperator>(B)) B = G->getPointerOperand()->stripPointerCasts();
+    if (auto* GV = dyn_cast<GlobalVariable>(B)) {
+      if (GV->isThreadLocal() && !tlsStored.count(GV)) ok = true;
+      if (GV->isConstant()) ok = true;
+    }
+    if (!ok && isReadOnlyLoad(*L)) ok = true;
+    break;
+  }
+  default: break;
+  }
+  if (!ok) return false;
+  if ((I->getOpcode() == Instruction::URem || I->getOpcode() == Instruction::UDiv) && !isa<ConstantInt>(I->getOperand(1))) {
+    // division by a non-constant: only if the divisor itself is stable (checked below) - fine, it was executed before
+  }
+  std::vector<const Instruction*> sub;
+  std::set<const Value*> subSeen = seen;
+  for (const Use& U : I->operands())
+    if (!rematChain(U.get(), sub, subSeen, depth + 1)) return false;
+  seen = subSeen;
+  out.insert(out.end(), sub.begin(), sub.end());
+  seen.insert(I);
+  out.push_back(I);
+  return true;
+}
+
+void FnEmitter::emitRemat(const Value* P) {
+  if (!step) return;
+  std::vector<const Instruction*> chain;
+  std::set<const Value*> seen;
+  if (!rematChain(P, chain, seen, 0)) {
+    // partial: rematerialise what can be, operand by operand
+    if (auto* I = dyn_cast<Instruction>(P))
+      if (isa<GetElementPtrInst>(I) || isa<BitCastInst>(I)) {
+        for (const Use& U : I->operands()) {
+          std::vector<const Instruction*> c2;
+          std::set<const Value*> s2;
+          if (rematChain(U.get(), c2, s2, 0))
+            for (auto* J : c2) emitInst(*J);
+        }
+        emitInst(*I);
+      }
+    return;
+  }
+  for (auto* J : chain) emitInst(*J);
 }
 
 FnEmitter::Vis FnEmitter::visibility(const Instruction& I) {
   if (auto* L = dyn_cast<LoadInst>(&I)) {
     if (L->isAtomic() || L->isVolatile()) return isPrivateAddr(L->getPointerOperand()) ? INVISIBLE : VIS_READ;
     if (isPrivateAddr(L->getPointerOperand())) return INVISIBLE;
-    if (T.plainVisible && T.storedTypesKnown && !T.storedUnknown) {
-      AccessDesc d = describeAccess(I, L->getPointerOperand(), L->getType(), T.DL);
-      bool mayAlias = false;
-      for (auto& w : T.writes)
-        if (!provablyDisjoint(d, w)) { mayAlias = true; break; }
-      if (!mayAlias) {
-        T.readOnlyLoads++;
-        return INVISIBLE;
-      }
+    if (isReadOnlyLoad(*L)) {
+      T.readOnlyLoads++;
+      return INVISIBLE;
     }
     return T.plainVisible ? VIS_READ : INVISIBLE;
   }
@@ -213,12 +302,16 @@ FnEmitter::Vis FnEmitter::visibility(const Instruction& I) {
   return INVISIBLE;
 }
 
-void FnEmitter::emitYield(Vis v, const Instruction& I) {
+void FnEmitter::emitYieldHead(Vis v, const Instruction& I) {
   int p = nextPc++;
   pcs.push_back(p);
   std::string k = std::to_string(tid);
   body << "  vf_pc[" << k << "] = " << p << "; if (!vf_probe_mode) return;\n";
   body << " R" << p << ": ;\n";
+}
+
+void FnEmitter::emitYieldProbe(Vis v, const Instruction& I) {
+  std::string k = std::to_string(tid);
   switch (v) {
   case VIS_WRITE:
     body << "  if (vf_probe_mode) { vf_enabled[" << k << "] = 1; return; }\n";
@@ -241,7 +334,7 @@ void FnEmitter::run(raw_ostream& os) {
     for (const Instruction& I : BB)
       if (auto* CB = dyn_cast<CallBase>(&I))
         if (auto* c = dyn_cast<Function>(CB->getCalledOperand()->stripPointerCasts()))
-          if (c->getName() == "_setjmp" || c->getName() == "setjmp" || c->getName() == "__sigsetjmp") usesSetjmp = true;
+          if (c->getName() == "_setjmp" || c->getName() == "setjmp" || c->getName() == "__sigsetjmp") { usesSetjmp = true; setjmpVal = &I; }
   if (step) computePrivate();
   std::string st = step ? "static " : "";
   const Instruction* setjmpCall = nullptr;
@@ -291,7 +384,13 @@ void FnEmitter::run(raw_ostream& os) {
       }
       if (step) {
         Vis v = visibility(I);
-        if (v != INVISIBLE) emitYield(v, I);
+        const Value* addr = nullptr;
+        if (auto* L = dyn_cast<LoadInst>(&I)) addr = L->getPointerOperand();
+        else if (auto* S = dyn_cast<StoreInst>(&I)) addr = S->getPointerOperand();
+        else if (isa<AtomicRMWInst>(I) || isa<AtomicCmpXchgInst>(I)) addr = I.getOperand(0);
+        if (v != INVISIBLE) emitYieldHead(v, I);
+        if (addr) emitRemat(addr);
+        if (v != INVISIBLE) emitYieldProbe(v, I);
         emitInst(I);
         if (v == VIS_BLOCKING)
           body << "  if (vf_probe_mode) { if (!vf_blocked[" << tid << "]) vf_enabled[" << tid << "] = 1; return; }\n";
@@ -514,10 +613,18 @@ void Translator::emitModule(raw_ostream& os, const std::vector<std::string>& roo
       (void)FT;
       continue;
     }
-    if (n.startswith("vf_tinit_") && nthreads > 0 && !decl) {
+    if ((n.startswith("vf_tinit_") || n.startswith("vf_tseq_")) && nthreads > 0 && !decl) {
+      // per-thread sequential copies (thread id constant, TLS resolves to that thread's copy)
       for (int k = 0; k < nthreads; ++k) {
         po << "void " << globalName(F) << "__t" << k << "(void);\n";
         emitFunction(bo, *F, k, false);
+      }
+      if (n.startswith("vf_tseq_")) { // dispatcher callable from sequential harness code: vf_call_<name>(t)
+        std::string base = n.str().substr(strlen("vf_tseq_"));
+        po << "void vf_call_" << base << "(uint32_t t);\n";
+        bo << "void vf_call_" << base << "(uint32_t t) {\n  uint32_t vf_saved = vf_cur;\n  switch (t) {\n";
+        for (int k = 0; k < nthreads; ++k) bo << "  case " << k << ": vf_cur = " << k << "; " << globalName(F) << "__t" << k << "(); break;\n";
+        bo << "  }\n  vf_cur = vf_saved;\n}\n\n";
       }
       continue;
     }
@@ -601,7 +708,7 @@ static void inlineThreadBodies(Module& M) {
   std::vector<Function*> wl;
   std::set<Function*> seen;
   for (Function& F : M)
-    if ((isThreadEntry(&F) || F.getName().startswith("vf_tinit_")) && !F.isDeclaration()) { wl.push_back(&F); seen.insert(&F); }
+    if ((isThreadEntry(&F) || (F.getName().startswith("vf_tinit_") || F.getName().startswith("vf_tseq_"))) && !F.isDeclaration()) { wl.push_back(&F); seen.insert(&F); }
   if (wl.empty()) return;
   while (!wl.empty()) {
     Function* F = wl.back();
@@ -613,7 +720,7 @@ static void inlineThreadBodies(Module& M) {
             if (!c->isDeclaration() && !c->hasAvailableExternallyLinkage() && seen.insert(c).second) wl.push_back(c);
   }
   for (Function* F : seen) {
-    if (isThreadEntry(F) || F->getName().startswith("vf_tinit_")) continue;
+    if (isThreadEntry(F) || (F->getName().startswith("vf_tinit_") || F->getName().startswith("vf_tseq_"))) continue;
     F->removeFnAttr(Attribute::NoInline);
     F->removeFnAttr(Attribute::OptimizeNone);
     F->addFnAttr(Attribute::AlwaysInline);
@@ -628,7 +735,7 @@ static void inlineThreadBodies(Module& M) {
   PM.add(createCFGSimplificationPass());
   PM.run(M);
   for (Function& F : M) {
-    if (!(isThreadEntry(&F) || F.getName().startswith("vf_tinit_")) || F.isDeclaration()) continue;
+    if (!(isThreadEntry(&F) || (F.getName().startswith("vf_tinit_") || F.getName().startswith("vf_tseq_"))) || F.isDeclaration()) continue;
     for (BasicBlock& BB : F)
       for (Instruction& I : BB)
         if (auto* CB = dyn_cast<CallBase>(&I))
@@ -666,7 +773,7 @@ int main(int argc, char** argv) {
       if (!F.isDeclaration() && (F.getName().startswith("ob_") || isThreadEntry(&F))) roots.push_back(F.getName().str());
   if (Threads > 0)
     for (Function& F : *M)
-      if (!F.isDeclaration() && (isThreadEntry(&F) || F.getName().startswith("vf_tinit_")) && std::find(roots.begin(), roots.end(), F.getName().str()) == roots.end())
+      if (!F.isDeclaration() && (isThreadEntry(&F) || F.getName().startswith("vf_tinit_") || F.getName().startswith("vf_tseq_")) && std::find(roots.begin(), roots.end(), F.getName().str()) == roots.end())
         roots.push_back(F.getName().str());
   Translator T(*M);
   T.nthreads = Threads;
